@@ -298,6 +298,19 @@ PROPS = {
         exhaustive_note="exhaustive over (scenario, k, once/persistent) for the listed scenarios; the thorough tier repeats them with 40..120 size variants",
         assumptions=["allocation sites are those reached by the 19 scenarios (listed in the evidence labels)", "realloc failure leaves the old block valid, as the C library does"],
     ),
+    "C20": dict(
+        level="exploration", monitors={"mon_life": {"sources": ["mon_life.c", "vf_alloc.c", "vf.c"], "link": ["-Wl,--wrap=malloc,--wrap=calloc,--wrap=realloc,--wrap=free"]}},
+        runs=[dict(name="asan", monitor="mon_life", flavour="asan", cases={"quick": 30000, "thorough": 3000000}),
+              dict(name="plain", monitor="mon_life", flavour="plain", cases={"quick": 60000, "thorough": 6000000})],
+        rule="one case = a random program (6..70 steps, then every held reference dropped in random order and the glyph cache destroyed) of create (bits with library or caller storage, solid, linear/radial/conical) / ref / unref / "
+             "set_alpha_map (to a bits image, to itself, to an image that has or is a map, to a non-bits image, re-attach, detach) / set_clip_region(32) / set_transform / set_filter (plain, convolution, separable) / set_destroy_function / "
+             "composite using pool images / glyph-cache insert+remove of pool images; model: per image the references the program holds, its attachment edge and its holder count, predicting which images die in each call; "
+             "oracles: unref returns TRUE exactly at a predicted death, the destroy callback runs exactly once inside that call with the registered data and an intact image, attachments are refused exactly when they would form a chain, "
+             "after the last reference every image has died and no block allocated by the library during the program is live (malloc/calloc/realloc/free wrapped at link time), caller-owned storage is still the caller's (freed by the monitor or in the callback), "
+             "AddressSanitizer reports (asan run); evaluations = unrefs + attachment calls + quiescent points judged; a cell = program shape by hash",
+        floors={"any": {"histories": 20000, "deaths": 100000, "callbacks_expected": 30000, "cascaded_deaths_of_alpha_maps": 3000, "attaches": 20000, "attach_refusals_expected": 5000, "quiescent_points": 20000, "labels:attach": 7}},
+        assumptions=["a program never uses an image it holds no reference on", "overlapping source/destination storage in a composite is outside the statement and not generated"],
+    ),
     "C17": dict(
         level="exploration", monitors={"mon_glyph": {"sources": ["mon_glyph.c", "vf_req.c", "ref_pixel.c", "ref_ops.c", "vf.c"]}},
         runs=[dict(name="hw4", monitor="mon_glyph", flavour="plain", config="hw4", defs=["-DPIXMAN_VERIF_GLYPH_HIGH_WATER=4"], cases={"quick": 6000, "thorough": 600000}),
@@ -407,6 +420,11 @@ MANIFEST_TEXT["C17"] = dict(
     technique="history-vs-model runtime monitor on shrunken hash tables (PIXMAN_VERIF hook) with a probe-overrun hook for termination; differential monitor for glyph drawing (through the cache vs per-glyph compositing from private copies)",
     level_text="Exploration: 10^4..10^6 histories of 200 cache operations on 8/16/128-slot tables and the production table (table-filling runs), every lookup checked against a map model, eviction checked for LRU order, termination as a logical-step verdict; glyph drawing compared bit-for-bit with the two reference constructions of the statement.",
     level_note="trusted: the map model in harness/mon_glyph.c; hook H1 in pixman-glyph.c (guarded, add-only)")
+
+MANIFEST_TEXT["C20"] = dict(
+    technique="history-vs-ownership-model runtime monitor (unref return values, destroy-callback counts and timing, refusal of alpha-map chains) with link-time allocation accounting at quiescent points and AddressSanitizer for double free / use after free",
+    level_text="Exploration: 10^5..10^7 random programs of create/ref/unref/set_alpha_map/setters/draw/glyph-cache calls over a pool of up to 12 images; every unref and attachment judged against the model, every program ends in a quiescent point where live library blocks must be zero",
+    level_note="trusted: the ownership model in harness/mon_life.c; the malloc wrappers in harness/vf_alloc.c")
 
 NOT_CLAIMED = {p: "monitor not built yet in this round (design in DESIGN.md section 6); no claim is made" for p in
                ["C%02d" % i for i in range(1, 21)]}
